@@ -172,6 +172,7 @@ def run(H, tier, rng):
             check_rank(H, list(arr))
 
 
-Harness("C17", "integer-grid point sets / segments (degenerate a=b, vertical, far-from-origin short segments), x-sorted curves with all sub-ranges sampled, "
-        "rectangle pairs from a 3x3 corner grid, point triples from a 4x3 grid in all 6 argument orders, value tuples with ties for rank; "
-        "oracle: definitions in exact rational arithmetic with one correctly rounded sqrt, rel. tolerance 1e-9", "grids as stated; seeded random integer inputs").main(run)
+if __name__ == "__main__":
+    Harness("C17", "integer-grid point sets / segments (degenerate a=b, vertical, far-from-origin short segments), x-sorted curves with all sub-ranges sampled, "
+            "rectangle pairs from a 3x3 corner grid, point triples from a 4x3 grid in all 6 argument orders, value tuples with ties for rank; "
+            "oracle: definitions in exact rational arithmetic with one correctly rounded sqrt, rel. tolerance 1e-9", "grids as stated; seeded random integer inputs").main(run)
